@@ -146,6 +146,18 @@ func lexSpec(s string) ([]stoken, error) {
 			for j < len(s) && s[j] != '"' {
 				if s[j] == '\\' && j+1 < len(s) {
 					j++
+					switch s[j] {
+					case 'n':
+						b.WriteByte('\n')
+					case 't':
+						b.WriteByte('\t')
+					case 'r':
+						b.WriteByte('\r')
+					default:
+						b.WriteByte(s[j])
+					}
+					j++
+					continue
 				}
 				b.WriteByte(s[j])
 				j++
